@@ -305,8 +305,8 @@ def r5_counts(ctx):
                     and "schema_errors" in txt(l.iter)}
         chains = set()
         for v in sinks:
-            while isinstance(v, ast.Call) and callee_last(v) == "lit" and v.args:
-                v = v.args[0]
+            while (isinstance(v, ast.Call) and callee_last(v) == "lit" and v.args) or (isinstance(v, (ast.List, ast.Tuple)) and len(v.elts) == 1):
+                v = v.args[0] if isinstance(v, ast.Call) else v.elts[0]   # pl.lit(x) / the one-row column [x]
             v = resolve_local(f.node, v)
             from ..util import decision_function
             if isinstance(v, ast.Name):
